@@ -160,6 +160,23 @@ func EnumFileSets(tier string) (sets []FileSet, rule string, snapshotCases int) 
 			sets = append(sets, fs)
 		}
 	}
+	if !thorough {
+		// one snapshot set in the quick tier: a packet of the observed flow carries exactly the
+		// timestamp of the snapshot and the flow continues in the next capture
+		for _, set := range ref.Sets() {
+			if set.Name != "snap-trigger" {
+				continue
+			}
+			cuts, err := ref.SnapshotCuts(set)
+			if err != nil {
+				mc.Fatal("%v", err)
+			}
+			fs := FileSet{Files: ref.Case{Set: set.Name, Interleave: set.Interleaves[0], Link: "eth", Cuts: cuts}, Snap: true}
+			fs.Hists = append(fs.Hists, History{Batches: [][]int{{0, 1}, {2}}}, History{Batches: [][]int{{0}, {1}, {2}}, Restart: []bool{true, true}})
+			snapshotCases += len(fs.Hists)
+			sets = append(sets, fs)
+		}
+	}
 	for _, set := range ref.Sets() {
 		if set.Huge {
 			continue
